@@ -1,6 +1,9 @@
 """C01 — correspondence of the Lean amplitude-tensor model (lean/templates/Amp.lean.in, Float instance) with
 `tf_pwa.amp.core`: per event and PER HELICITY COMPONENT the real `DecayChain.get_amp` tensor of every chain, the real
-`DecayGroup.get_amp` tensor (sum over chains) and the real `DecayGroup.sum_amp` density are compared with the model.
+`DecayGroup.get_amp` tensor (sum over chains) and the real `DecayGroup.sum_amp` density are compared with the model
+(`correspond_amp`); `DecayGroup.get_amp3` (identical-particle terms of `get_amp2`, charge-conjugated partner, `allow_cc`
+reversal on charge -1 events) per helicity component and `sum_amp` with the model's `groupAmp3` / `density3`
+(`correspond_amp3`, op `amp3`).
 
 Inputs of the model are what `amp/core.py` itself reads: masses, |q|2, helicity angles `ang` of every vertex and
 `aligned_angle` of every final particle from the data dictionary produced by the real `cal_angle`, and the parameter
@@ -82,9 +85,35 @@ def chain_contexts(dg, data):
     return out
 
 
-def describe_chain(dg, dc, data_c, data_p, n_ev, ids):
+_Q0_ROUNDED = {}
+
+
+def q0_rounding_observed():
+    """Does the tree round a Python-float |q0|2 to float32 inside Bprime_q2 (tf.cast(python_float, float64))?  Observed on
+    the real function: the barrier factor at q2 == q02 is exactly one iff it does not (fixes/C01-fix_q0_float64.diff)."""
+    if "v" not in _Q0_ROUNDED:
+        import tensorflow as tf
+        from tf_pwa.breit_wigner import Bprime_q2
+        x = 0.7123456789012345  # not representable in single precision
+        vals = [float(np.asarray(Bprime_q2(L, tf.constant([x], dtype=tf.float64), x, 3.0)).reshape(-1)[0]) for L in (1, 2, 3)]
+        _Q0_ROUNDED["v"] = any(v != 1.0 for v in vals)
+    return _Q0_ROUNDED["v"]
+
+
+def cc_flags(d, all_data, n_ev):
+    """1.0 on the events where `get_helicity_amp` takes the reversed couplings H[..., ::-1, ::-1] (allow_cc, charge <= 0)"""
+    charge = None if all_data is None else all_data.get("charge_conjugation", None)
+    if not getattr(d, "allow_cc", False) or charge is None:
+        return np.zeros(n_ev)
+    ch = np.broadcast_to(np.asarray(charge, dtype=float).reshape(-1), (n_ev,))
+    return np.where(ch > 0, 0.0, 1.0)
+
+
+def describe_chain(dg, dc, data_c, data_p, n_ev, ids, all_data=None):
     """-> (ints, floats) of one `chain` op, or None if the chain uses something outside the model"""
     ints, fl = [], []
+    if getattr(dc, "is_cp", False):
+        return None
 
     def put_list(xs):
         ints.append(len(xs))
@@ -120,7 +149,9 @@ def describe_chain(dg, dc, data_c, data_p, n_ev, ids):
         lh = d.list_helicity_inner()
         put_list([_d(x) for x in lh[0]]); put_list([_d(x) for x in lh[1]])
         q0 = d.get_relative_momentum2(data_p, False)
-        ints.append(0 if hasattr(q0, "dtype") else 1)  # Python float -> rounded to float32 inside Bprime_q2 (tf.cast)
+        # a Python-float |q0|2 is rounded to float32 inside Bprime_q2 on the unrepaired tree (tf.cast); the flag follows
+        # what the real Bprime_q2 is OBSERVED to do, so that the model is right before and after fixes/C01-fix_q0_float64.diff
+        ints.append(1 if (not hasattr(q0, "dtype") and q0_rounding_observed()) else 0)
         ls = d.get_ls_list()
         ints.append(len(ls))
         for l, s in ls:
@@ -149,7 +180,7 @@ def describe_chain(dg, dc, data_c, data_p, n_ev, ids):
     cols = []
     for d in decays:
         ang = data_c[d][d.outs[0]]["ang"]
-        cols += [arr(data_c[d]["|q|2"]), arr(ang["alpha"]), arr(ang["beta"]), arr(ang["gamma"])]
+        cols += [cc_flags(d, all_data, n_ev), arr(data_c[d]["|q|2"]), arr(ang["alpha"]), arr(ang["beta"]), arr(ang["gamma"])]
     for r, di in zip(dc.inner, res_decay):
         cols += [arr(data_p[r]["m"]), arr(data_p[di.outs[0]]["m"]), arr(data_p[di.outs[1]]["m"])]
     for d, o in aligns:
@@ -215,7 +246,7 @@ def correspond_amp(ctx, res):
         job = {"st": st, "b": b, "n": n, "shape": shape, "amp_all": amp_all, "dens": dens, "chains": [], "first_line": len(lines), "p": p}
         ok = True
         for (dc, dcx, dpx), real in zip(ctxs, per_chain):
-            desc = describe_chain(dg, dc, dcx, dpx, n, ids)
+            desc = describe_chain(dg, dc, dcx, dpx, n, ids, all_data=data)
             if desc is None:
                 res.notes.append("C01 amp: chain %s of %s is outside the model (skipped)" % (dc, st["name"]))
                 ok = False
@@ -289,6 +320,7 @@ def correspond_amp(ctx, res):
                 i = int(bad[0])
                 first = {"structure": job["st"]["name"], "chain": "sum over chains (DecayGroup.get_amp / sum_amp)", "event": [x[i].tolist() for x in job["p"]],
                          "density_real": float(job["dens"][i]), "density_model": float(dm[i]), "rel_err_amp": float(e[i]), "config": job["st"]["cfg"], "params": job["b"].params}
+    res.coverage["python_float_q0_rounded_to_float32_observed"] = bool(q0_rounding_observed())
     res.coverage["amplitude_tensor"] = {
         "components_compared": int(n_cmp), "worst_rel_err_of_largest_component": worst, "worst_rel_err_density": worst_d, "disagreements": int(nbad),
         "structures": cover["structures"], "chains": cover["chains"], "spins": sorted(cover["spins"]), "line_shapes": sorted(cover["line_shapes"]),
@@ -300,6 +332,213 @@ def correspond_amp(ctx, res):
     if nbad:
         res.broke("correspondence: the helicity amplitude tensor of tf_pwa.amp.core (DecayChain.get_amp / DecayGroup.get_amp / sum_amp) differs from the Lean model "
                   "AmpF (templates/Amp.lean.in) in %d (chain, event) blocks" % nbad, {"n": nbad, "first": first})
+        if getattr(ctx, "hint", None) is None:
+            ctx.hint = first
+    return n_cmp
+
+
+# ---------------------------------------------------------------------------------------------
+# get_amp2 / get_amp3 / sum_amp: identical particles, charge-conjugated partner, allow_cc
+# ---------------------------------------------------------------------------------------------
+
+def amp3_zoo():
+    """Cards for DecayGroup.get_amp2 / get_amp3 and the allow_cc branch of get_helicity_amp."""
+    _p = c01._p
+    Z = []
+    # identical fermions (sign factor -1, transposition of two spin-1/2 axes), spin-1 parent
+    Z.append({"name": "amp3_identical_fermions", "pc": True, "cfg": {
+        "data": {"dat_order": ["Bu", "C1u", "C2u"], "identical_particles": [["C1u", "C2u"]]},
+        "decay": {"Au": [["Rbcu", "C2u"], ["Rccu", "Bu"]], "Rbcu": ["Bu", "C1u"], "Rccu": ["C1u", "C2u"]},
+        "particle": {"$top": {"Au": _p(1, -1, 3.686)},
+                     "$finals": {"Bu": _p(0, -1, 0.548), "C1u": _p("1/2", 1, 0.938), "C2u": _p("1/2", 1, 0.938)},
+                     "Rbcu": _p("1/2", -1, 1.535, width=0.15), "Rccu": _p(1, -1, 2.2, width=0.18)}}})
+    # identical spin-1 bosons (factor +1, transposition of two spin-1 axes), spin-0 parent, parity violating top vertices
+    Z.append({"name": "amp3_identical_vectors", "pc": False, "cfg": {
+        "data": {"dat_order": ["Bv", "C1v", "C2v"], "identical_particles": [["C1v", "C2v"]]},
+        "decay": {"Av": [["Rbcv", "C2v", {"p_break": True}], ["Rccv", "Bv", {"p_break": True}]], "Rbcv": ["Bv", "C1v"], "Rccv": ["C1v", "C2v"]},
+        "particle": {"$top": {"Av": _p(0, -1, 5.28)},
+                     "$finals": {"Bv": _p(0, -1, 0.494), "C1v": _p(1, -1, 0.78), "C2v": _p(1, -1, 0.78)},
+                     "Rbcv": _p(1, 1, 1.4, width=0.17), "Rccv": _p(2, 1, 2.3, width=0.25)}}})
+    # charge-conjugate pair (cp_particles): get_amp3 adds frac * reverse(transpose(get_amp2(cp_swap))), frac = C(D) = -1
+    Z.append({"name": "amp3_cp_pair", "pc": True, "cfg": {
+        "data": {"dat_order": ["Bw", "Cw", "Dw"], "cp_particles": [["Bw", "Cw"]]},
+        "decay": {"Aw": [["Rbdw", "Cw"], ["Rcdw", "Bw"], ["Rbcw", "Dw"]], "Rbdw": ["Bw", "Dw"], "Rcdw": ["Cw", "Dw"], "Rbcw": ["Bw", "Cw"]},
+        "particle": {"$top": {"Aw": _p(1, -1, 3.9)},
+                     "$finals": {"Bw": _p("1/2", 1, 0.938), "Cw": _p("1/2", -1, 0.938), "Dw": _p(1, -1, 0.78, C=-1)},
+                     "Rbdw": _p("3/2", 1, 1.9, width=0.2), "Rcdw": _p("3/2", -1, 1.9, width=0.2), "Rbcw": _p(1, -1, 2.6, width=0.2)}}})
+    # charge -1 events with cp_trans off: allow_cc stays on and get_helicity_amp reverses the helicity couplings
+    Z.append({"name": "amp3_allow_cc", "pc": False, "charge": True, "cfg": {
+        "data": {"dat_order": ["Bx", "Cx", "Dx"], "cp_trans": False},
+        "decay": {"Ax": [["Rbcx", "Dx", {"p_break": True}], ["Rbdx", "Cx", {"p_break": True}]], "Rbcx": ["Bx", "Cx"], "Rbdx": [["Bx", "Dx", {"p_break": True}]]},
+        "particle": {"$top": {"Ax": _p("1/2", 1, 4.6)},
+                     "$finals": {"Bx": _p("1/2", 1, 0.938), "Cx": _p(0, -1, 0.494), "Dx": _p(1, -1, 0.78)},
+                     "Rbcx": _p("3/2", -1, 1.9, width=0.1), "Rbdx": _p("1/2", 1, 2.43, width=0.3)}}})
+    return Z
+
+
+def describe_group(dg, data, all_data, n, ids, cover):
+    """one data dictionary with its id_swap entries -> (ints, floats, cost) or None"""
+    ints, fl = [], []
+    names = {str(o): o for o in dg.outs}
+
+    def put_chains(d):
+        ctxs = chain_contexts(dg, d)
+        ints.append(len(ctxs))
+        for dc, dcx, dpx in ctxs:
+            desc = describe_chain(dg, dc, dcx, dpx, n, ids, all_data=d)
+            if desc is None:
+                return False
+            ints.extend(desc[0]); fl.extend(desc[1])
+            cover["chains"] += 1
+        return True
+
+    if not put_chains(data):
+        return None
+    id_swap = data.get("id_swap", {})
+    ints.append(len(id_swap))
+    for k, v in id_swap.items():
+        groups = list(zip(dg.identical_particles, k[1]))
+        ints.append(len(groups))
+        pairs = []
+        for grp, img in groups:
+            grp = [str(x) for x in grp]; img = [str(x) for x in img]
+            if len(grp) != 2:
+                return None  # the transposition rule of get_swap_transpose is modelled for exchanges of pairs only
+            part = dg.get_particle(grp[0])
+            ints.append(1 if int(round(2 * float(part.J))) % 2 == 1 else 0)
+            sigma = [grp.index(x) for x in img]
+            ints.append(len(sigma)); ints.extend(sigma)
+            for a, b in zip(grp, img):
+                if a != b:
+                    pairs.append((ids[names[a]], ids[names[b]]))
+        ints.append(len(pairs))
+        for a, b in pairs:
+            ints += [a, b]
+        if not put_chains({**data, **v}):
+            return None
+        cover["swaps"] += 1
+    return ints, fl
+
+
+def correspond_amp3(ctx, res):
+    """DecayGroup.get_amp3 per helicity component and DecayGroup.sum_amp vs the Lean model (groupAmp3 / density3)."""
+    from tf_pwa.particle import cp_charge_group
+    n_ev = 4 if ctx.quick else 30
+    budget = 40000 if ctx.quick else 300000
+    rng = np.random.Generator(np.random.Philox(ctx.seed + 5005))
+    jobs, lines = [], []
+    cover = {"structures": [], "chains": 0, "swaps": 0, "cp_terms": 0, "cc_events": 0}
+    for k, st in enumerate(amp3_zoo()):
+        b = c01.try_build(st, rng)
+        if b is None:
+            res.broke("C01 amplitude correspondence (get_amp3): structure %s is no longer accepted by ConfigLoader" % st["name"], st["cfg"])
+            continue
+        dg = b.amp.decay_group
+        ncomp = int(np.prod([len(dg.top.spins)] + [len(o.spins) for o in dg.outs]))
+        terms = 0
+        for dc in dg.chains:
+            t = ncomp
+            for r in dc.inner:
+                t *= len(r.spins)
+            for o in dg.outs:
+                t *= len(o.spins) if o.J != 0 else 1
+            terms += t
+        mult = (2 if dg.identical_particles else 1) * (2 if getattr(dg, "cp_particles", None) else 1)
+        n_use = int(max(1, min(n_ev, budget // max(terms * mult * 2, 1))))  # x2: components and density
+        p = c01.phsp(b, n_use, ctx.seed * 15485863 + k)
+        n = len(p[0])
+        try:
+            data = b.config.data.cal_angle([np.array(x) for x in p])
+            if st.get("charge"):
+                ch = np.where(rng.random(n) < 0.5, 1.0, -1.0)
+                ch[0] = -1.0
+                data = {**data, "charge_conjugation": ch}
+                cover["cc_events"] += int(np.sum(ch < 0))
+            amp3 = np.asarray(dg.get_amp3(data))
+            dens = np.asarray(dg.sum_amp(data), dtype=float)
+        except Exception as e:
+            res.broke("C01 amplitude correspondence (get_amp3): evaluating %s raised %s: %s" % (st["name"], type(e).__name__, str(e)[:300]), st["cfg"])
+            continue
+        ids = {dg.top: 0}
+        for o in dg.outs:
+            ids[o] = len(ids)
+        for r in dg.resonances:
+            if r not in ids:
+                ids[r] = len(ids)
+        shape = tuple([len(dg.top.spins)] + [len(o.spins) for o in dg.outs])
+        g = describe_group(dg, data, data, n, ids, cover)
+        if g is None:
+            res.notes.append("C01 amp3: structure %s is outside the model (skipped)" % st["name"])
+            continue
+        ints, fl = g
+        if "cp_swap" in data:
+            names = {str(o): o for o in dg.outs}
+            frac, pairs = 1.0, []
+            for a, bb in cp_charge_group([str(i) for i in dg.outs], dg.identical_particles, dg.cp_particles):
+                for i, j in zip(a, bb):
+                    if i == j:
+                        frac *= float(getattr(names[i], "C", -1))
+                    else:
+                        pairs += [(ids[names[i]], ids[names[j]]), (ids[names[j]], ids[names[i]])]
+            g2 = describe_group(dg, data["cp_swap"], data["cp_swap"], n, ids, cover)
+            if g2 is None:
+                res.notes.append("C01 amp3: cp_swap part of %s is outside the model (skipped)" % st["name"])
+                continue
+            ints.append(1); fl.append(frac)
+            ints.append(len(pairs))
+            for a, bb in pairs:
+                ints += [a, bb]
+            ints.extend(g2[0]); fl.extend(g2[1])
+            cover["cp_terms"] += 1
+        else:
+            ints.append(0)
+        lines.append("C01amp amp3 %d %s %s" % (len(ints), " ".join(str(i) for i in ints), " ".join(C.f2h(x) for x in fl)))
+        jobs.append({"st": st, "b": b, "n": n, "shape": shape, "amp3": amp3, "dens": dens, "p": p,
+                     "charge": data.get("charge_conjugation", None)})
+        cover["structures"].append(st["name"])
+    if not lines:
+        res.broke("C01 amplitude correspondence (get_amp3): no structure could be compared", None)
+        return 0
+    out = ctx.model.query(lines)
+    n_cmp, worst, worst_d, nbad, first = 0, 0.0, 0.0, 0, None
+    for job, ans in zip(jobs, out):
+        n, shape = job["n"], job["shape"]
+        ncomp = int(np.prod(shape))
+        if ans == "bad-op":
+            res.broke("C01 amplitude correspondence (get_amp3): the Lean model rejected the description of %s" % job["st"]["name"], None)
+            continue
+        v = np.array([C.h2f(x) for x in ans.split()]).reshape(n, 2 * ncomp + 1)
+        m = v[:, 0:2 * ncomp:2] + 1j * v[:, 1:2 * ncomp:2]
+        dm = v[:, -1]
+        real = np.broadcast_to(job["amp3"], (n,) + shape).reshape(n, ncomp)
+        scale = np.maximum(np.max(np.abs(real), axis=1), 1e-300)
+        e = np.max(np.abs(m - real), axis=1) / scale
+        ed = np.abs(dm - job["dens"]) / np.maximum(np.abs(job["dens"]), 1e-300)
+        n_cmp += n * ncomp + n
+        worst = max(worst, float(np.nanmax(e)))
+        worst_d = max(worst_d, float(np.nanmax(ed)))
+        bad = np.where(~(e < TOL) | ~(ed < TOL))[0]
+        if len(bad):
+            nbad += len(bad)
+            if first is None:
+                i = int(bad[0])
+                j = int(np.argmax(np.abs(m[i] - real[i])))
+                first = {"structure": job["st"]["name"], "what": "DecayGroup.get_amp3 / sum_amp", "event": [x[i].tolist() for x in job["p"]],
+                         "charge_conjugation": None if job["charge"] is None else float(job["charge"][i]),
+                         "component": [int(x) for x in np.unravel_index(j, shape)],
+                         "index_layout": "[top helicity, final-state helicities in decay_group.outs order] (positions in particle.spins)",
+                         "real": [float(real[i, j].real), float(real[i, j].imag)], "model": [float(m[i, j].real), float(m[i, j].imag)],
+                         "density_real": float(job["dens"][i]), "density_model": float(dm[i]), "rel_err_of_largest": float(e[i]),
+                         "config": job["st"]["cfg"], "params": job["b"].params}
+    res.coverage["amplitude_tensor_identical_cp"] = {
+        "components_compared": int(n_cmp), "worst_rel_err_of_largest_component": worst, "worst_rel_err_density": worst_d, "disagreements": int(nbad),
+        "structures": cover["structures"], "chain_evaluations": cover["chains"], "id_swap_terms": cover["swaps"], "cp_swap_terms": cover["cp_terms"],
+        "charge_conjugated_events_with_allow_cc": cover["cc_events"], "events": int(sum(j["n"] for j in jobs)), "tolerance": TOL,
+    }
+    if nbad:
+        res.broke("correspondence: DecayGroup.get_amp3 / sum_amp of tf_pwa.amp.core (identical-particle terms get_amp2: swap factor and transposition; "
+                  "charge-conjugated partner get_amp3: frac, transposition, helicity reversal; allow_cc reversal of the helicity couplings) differs from the Lean model "
+                  "AmpF.groupAmp3 / density3 (templates/Amp.lean.in) on %d events" % nbad, {"n": nbad, "first": first})
         if getattr(ctx, "hint", None) is None:
             ctx.hint = first
     return n_cmp
